@@ -2,7 +2,7 @@ from checks import both, EX
 
 CHECK = {
     'level': 'exploration',
-    'rule': ('[out-parameters] insert/find/erase receive ONE re-used iterator variable that arrives holding a sentinel, the previous result, the iterator of another live entry, of an erased entry (also with its node memory re-used), of the same key object in a SECOND map, or that map\'s end iterator; the second map must stay untouched; '
+    'rule': ('[probe keys] the caller rewrites a probe key object it owns between a find that misses and insert/find/erase with the same pointer (the model decides by the content at each call); [big] 6000 entries cleared in one call, also while the allocator refuses everything (cycles); [out-parameters] insert/find/erase receive ONE re-used iterator variable that arrives holding a sentinel, the previous result, the iterator of another live entry, of an erased entry (also with its node memory re-used), of the same key object in a SECOND map, or that map\'s end iterator; the second map must stay untouched; '
              'Keys are boxed integers with 2-3 distinct key OBJECTS and value objects per key value (separate heap blocks), '
              'so "the stored key/value pointers stay untouched" is observed by address; a share of the entries (odd key values '
              'with their last key object in the closure alphabets, one offer in 3-4 in random histories) is inserted with a '
